@@ -7,6 +7,7 @@
 
 #[path = "../../vnative/src/contain.rs"]
 mod contain;
+mod arms_gen;
 mod scen;
 
 use contain::*;
